@@ -463,6 +463,10 @@ class Interp:
                 r = x.a_binop(self, op, y, refl, node)
                 if r is not NotImplemented:
                     return r
+        if isinstance(a, AObj) and a.cls is not None and op in _BINDUNDER:
+            for dn in _BINDUNDER[op]:
+                if self.repo.find_method(a.cls, dn) is not None:
+                    return self.call_method(a, dn, [b], {}, node)
         if op is ast.Add and ((isinstance(a, (str, AbsStr, Ch)) and b is None) or (a is None and isinstance(b, (str, AbsStr, Ch)))):
             raise RaiseEx("TypeError", node)
         if op is ast.Mod and isinstance(a, str) and a.count("%s") == a.count("%") and a.count("%s") >= 1:
@@ -1663,6 +1667,7 @@ class Interp:
         absloops.while_loop(self, st, frame)
 
 
+_BINDUNDER = {ast.Add: ["__add__"], ast.Sub: ["__sub__"], ast.Mult: ["__mul__"]}
 _DUNDER = {ast.Lt: "__lt__", ast.LtE: "__le__", ast.Gt: "__gt__", ast.GtE: "__ge__", ast.Eq: "__eq__", ast.NotEq: "__ne__"}
 _REFLECT = {ast.Lt: ast.Gt, ast.LtE: ast.GtE, ast.Gt: ast.Lt, ast.GtE: ast.LtE, ast.Eq: ast.Eq, ast.NotEq: ast.NotEq}
 _OPNAME = {ast.Lt: "<", ast.LtE: "<=", ast.Gt: ">", ast.GtE: ">=", ast.Eq: "==", ast.NotEq: "!=",
